@@ -524,6 +524,19 @@ func checkC11(c *Check) {
 				} else {
 					c.Bad(p.FuncKey(get)+":auto-head", p.Pos(ci.Pos()), "the automatic HEAD registration is not gated by autoHead or uses another path/handlers", path)
 				}
+				// … and whenever it is on: no further condition (a memo, a counter, a lookup) may skip it
+				skipped := false
+				for e := range on {
+					if e.S < len(e.B.Succs) {
+						if in, pth := (Query{Fn: get, Avoid: isInstr(ci)}).Reach(e.B.Succs[e.S], 0, func(x ssa.Instruction) bool { _, isRet := x.(*ssa.Return); return isRet }); in != nil {
+							skipped = true
+							c.Bad(p.FuncKey(get)+":auto-head-always", p.Pos(ci.Pos()), "with autoHead on, Get can return without registering HEAD: the implicit HEAD route depends on something other than the switch and this registration (flat expansion always registers it)", blockPath(pth))
+						}
+					}
+				}
+				if !skipped && len(on) > 0 {
+					c.OK(p.FuncKey(get)+":auto-head-always", p.Pos(ci.Pos()), "every path from the autoHead edge to a return registers HEAD", numInstrs(get))
+				}
 			}
 			if !found {
 				c.Bad(p.FuncKey(get)+":auto-head", p.FuncPos(get), "Get never registers HEAD: AutoHead has no effect")
